@@ -114,6 +114,11 @@ func (s *scStart) Configure(w *World) {
 		c.ReadOnly = false
 		c.DcpMode = "infinite"
 	}
+	if s.prop == "C02" && t.Draw(5, nil) == 0 {
+		// named collections configured: what is resumed and where a finite session ends is still about the vBucket
+		c.ScopeName, c.CollectionNames = "s1", []string{"c1"}
+		c.Extra["c02collections"] = "1"
+	}
 	if s.prop == "C08" {
 		if t.Draw(3, nil) == 0 {
 			c.ScopeName, c.CollectionNames = "s1", []string{"c1"} // a filtered stream: snapshot tails are closed by seqno-advanced
